@@ -78,3 +78,9 @@ RC.append(("ArrayBox.flatten is an alias of ravel: under differentiation x.flatt
            [("C06", "ravel", "*", "result-aliases-input", "form:x.fl")]))
 RC.append(("np.einsum in the interleaved (operand, sublist) convention WITHOUT an Ellipsis never un-broadcasts: a labelled size-1 dimension that was broadcast is not summed back",
            [(p, "einsum", "rev", k, "convention:interleaved,size1_label_broadcast:True") for p, k in (("C01", "wrong-shape"), ("C05", "wrong-structure"), ("C09", "wrong-shape"), ("C01", "wrong-value"))]))
+
+_BIN = ["add", "subtract", "multiply", "divide", "true_divide", "maximum", "minimum", "fmax", "fmin", "logaddexp", "logaddexp2", "mod", "remainder",
+        "power", "arctan2", "hypot"]
+RC.append(("binary element-wise functions: the gradient w.r.t. a default-precision (float64 / Python float) argument takes the dtype of the OTHER operand when that "
+           "one has another precision (float32 partner of a scalar -> float32, longdouble partner -> float128): unbroadcast restores shape and realness but not the dtype",
+           [("C05", p_, "rev", "wrong-structure", "kinds:~.*(ld|f32).*") for p_ in _BIN]))
